@@ -398,6 +398,23 @@ def _need(cond, what):
         raise Unsupported('shape obligation not met: %s: %s' % (what, cond))
 
 
+class OArr(_np.ndarray):
+    """object ndarray of symbolic scalars that also accepts *symbolic* integer index arrays (x[rng.choice(...)])"""
+
+    def __getitem__(self, key):
+        def symbolic_index(k):
+            if isinstance(k, T):
+                return True
+            if isinstance(k, _np.ndarray) and k.dtype == object and k.size and isinstance(k.flat[0], S) and not k.flat[0].e.is_Integer:
+                return True
+            return isinstance(k, S) and not k.e.is_Integer
+        if symbolic_index(key):
+            r = T.lift(_np.asarray(self))[key if isinstance(key, T) else (T.lift(key) if isinstance(key, _np.ndarray) else key)]
+            return r.concrete().view(OArr) if isinstance(r, T) else r
+        r = _np.ndarray.__getitem__(self, key)
+        return r
+
+
 class MT(T):
     """mutable tensor (np.empty / np.zeros followed by slice assignment): functional updates"""
 
@@ -541,7 +558,7 @@ class _NPX(object):
         if isinstance(x, (list, tuple)) and any(isinstance(y, T) for y in x):
             return self.stack(list(x))
         if _symbolic(x):
-            return _np.asarray(x, dtype=object)
+            return _np.asarray(x, dtype=object).view(OArr)
         return _np.asarray(x, dtype=dtype, **kw) if dtype is not None else _np.asarray(x, **kw)
 
     def array(self, x, dtype=None, copy=True, **kw):
